@@ -6,7 +6,7 @@ Local Open Scope N_scope.
 (* one parsed comment entry, in source order: begin or end, id, symbol name, line of the comment *)
 Record bev := mkBE { be_end : bool; be_id : str; be_sym : str; be_line : Z }.
 
-(* a block suppression that results: the id and symbol of the END entry, lines of begin and end *)
+(* a block suppression that results: id and symbol (of both entries), lines of begin and end *)
 Record block := mkBlk { bk_id : str; bk_sym : str; bk_begin : Z; bk_end : Z }.
 
 Fixpoint last_line (bs : list bev) : option Z :=
@@ -16,13 +16,13 @@ Fixpoint last_line (bs : list bev) : option Z :=
   | _ :: r => last_line r
   end.
 
-(* first pending begin on line `ll` whose symbol is that of the end entry and whose line is
-   smaller: it is taken out of the pending list *)
+(* first pending begin on line `ll` whose id and symbol are those of the end entry (ids compared
+   since fix ec62462) and whose line is smaller: it is taken out of the pending list *)
 Fixpoint take_begin (ll : Z) (e : bev) (bs : list bev) : option (bev * list bev) :=
   match bs with
   | [] => None
   | b :: r =>
-      if (be_line b =? ll)%Z && str_eqb (be_sym e) (be_sym b) && (be_line b <? be_line e)%Z
+      if (be_line b =? ll)%Z && str_eqb (be_id e) (be_id b) && str_eqb (be_sym e) (be_sym b) && (be_line b <? be_line e)%Z
       then Some (b, r)
       else match take_begin ll e r with
            | Some (x, r') => Some (x, b :: r')
